@@ -22,7 +22,7 @@
 (* The result is compared, observation by observation, with the content     *)
 (* IceData!Merge defines.                                                   *)
 (***************************************************************************)
-EXTENDS IceData
+EXTENDS IceData, Json
 
 CONSTANTS Catalogue,      \* sequence of batches
           MaxSegs,        \* segments per merge
@@ -179,12 +179,16 @@ McCatalogue == <<
     \* 6: field list _id a c : diverges from 4 after a common prefix
     << <<Id(5), Inst("a", <<Occ(T(120), 1, <<>>)>>, TRUE, T(7), TRUE), Inst("c", <<Occ(T(120), 1, <<>>)>>, TRUE, T(8), FALSE)>> >>,
     \* 7: a singleton term with frequency 2 and no locations (must not be 1-hit encoded)
-    << <<Id(6), Inst("a", <<Occ(T(125), 2, <<>>)>>, FALSE, <<>>, FALSE)>> >>
+    << <<Id(6), Inst("a", <<Occ(T(125), 2, <<>>)>>, FALSE, <<>>, TRUE)>> >>
 >>
 
 McFields == {"_id", "a", "b", "c"}
 McFieldBytes == ("_id" :> <<95, 105, 100>>) @@ ("a" :> <<97>>) @@ ("b" :> <<98>>) @@ ("c" :> <<99>>)
 McNormOf == [p \in McFields \X (0..24) |-> p]           \* the norm key itself: injective
+
+\* E2: the same configurations, emitted for execution on the real merger
+EmitConfig == PrintT(<<"BEHAVIOUR", ToJson([sel |-> sel, drops |-> [i \in DOMAIN sel |-> SetToSorted(drops[i], <)],
+                                             catalogue |-> Catalogue])>>)
 
 AllRefine == /\ RefinesFields /\ RefinesCount /\ RefinesDocNums /\ RefinesTerms /\ RefinesPostings
              /\ RefinesStored /\ RefinesStats /\ RefinesDocValues
